@@ -5,6 +5,7 @@ parameter values are compared structurally with the original's."""
 import ast
 import time
 import threading
+import copy
 import math
 import sys
 import types
@@ -448,13 +449,20 @@ def run_case(idx, rng, P, rep):
         kwonly = bool(kws) and rng.random() < 0.3       # def __init__(self, a, *, b=..., **params): keyword-only parameters
         if kwonly:
             rep.count('keyword_only_signatures')
-        args = ['self'] + pos + (['*'] if kwonly else []) + [f'{k}=_sigdef[{k!r}]' for k in kws] + (['**params'] if shape == 'mixed' else [])
+        # ... some of them required: def __init__(self, *, a, b=..., **params)
+        required = kws[:1] if kwonly and rng.random() < 0.5 else []
+        if required:
+            rep.count('required_keyword_only_parameters')
+        args = ['self'] + pos + (['*'] if kwonly else []) + required + [f'{k}=_sigdef[{k!r}]' for k in kws if k not in required] + \
+            (['**params'] if shape == 'mixed' else [])
         body = 'super(_cls[0], self).__init__(' + ', '.join(f'{k}={k}' for k in pos + kws) + (', **params' if shape == 'mixed' else '') + ')'
         src = f'def __init__({", ".join(args)}):\n    {body}\n'
         env = {'_sigdef': sigdefaults, '_cls': [None]}
         exec(src, env)
         ns['__init__'] = env['__init__']
         sigdesc = f'{shape}:pos={len(pos)},kw={len(kws)}' + (',kwonly' if kwonly else '')
+    if shape == 'varkw':
+        required = []
     cname = f'Outer{idx}'
     cls = type(cname, (param.Parameterized,), ns)
     if shape != 'varkw':
@@ -468,9 +476,12 @@ def run_case(idx, rng, P, rep):
     for sidx in range(P['states']):
         kw = {}
         for s in specs:
-            must = shape != 'varkw' and s['name'] in (pos if shape != 'varkw' else [])
+            must = shape != 'varkw' and s['name'] in ((pos + required) if shape != 'varkw' else [])
             if must or rng.random() < 0.6:
-                if s['default'] and rng.random() < 0.5:
+                if s['name'] in required and rng.random() < 0.4:
+                    # (a required argument given the very value the Parameter declares as its default)
+                    kw[s['name']] = copy.deepcopy(s['default'])
+                elif s['default'] and rng.random() < 0.5:
                     kw[s['name']] = near(rng, s['ptype'], s['default'], inners, s)
                     rep.count('values_related_to_default')
                 else:
